@@ -129,6 +129,13 @@ func (rl *Shell) Readline() (string, error) {
 		// such as a virtually inserted candidate.
 		completion.UpdateInserted(rl.completer)
 
+		// An inserted candidate may just have become part of the line, with the
+		// cursor after it: in Vi command mode it must remain on a character even
+		// if no command runs next (the key might only be a prefix of a sequence).
+		if rl.Keymap.Main() == keymap.ViCommand {
+			rl.cursor.CheckCommand()
+		}
+
 		// 2 - Main keymap (Vim command/insertion, Emacs).
 		bind, command, prefixed = keymap.MatchMain(rl.Keymap)
 		if prefixed {
